@@ -30,7 +30,11 @@ def gen_history(rng, tier, profile=None):
     profile = profile or {}
     tick = profile.get("tick", rng.choice(TICKS_ALL))
     base = profile.get("base", rng.choice([20, 100, 1000, 12345]))
-    if "base" not in profile and rng.random() < 0.12:
+    if "base" not in profile and "tick" not in profile and rng.random() < 0.05:
+        # penny book: buys below one tick are rounded to price 0.0, market sells can then trade at 0.0
+        tick, base = 1.0, 1
+        profile = dict(profile, penny=True, p_off=0.6, p_market=0.3, max_levels=3)
+    elif "base" not in profile and rng.random() < 0.12:
         # very fine grids relative to the price level: neighbouring ticks differ by 1e-9 .. 1e-11 of the price
         base = rng.choice([10 ** 9 + 7, 3 * 10 ** 9, 12345678901])
     nlev = rng.randint(1, profile.get("max_levels", 8))
@@ -66,8 +70,10 @@ def gen_history(rng, tier, profile=None):
                 ops.append(["M", is_buy, vol, ttl, ag])
             else:
                 lev = base + rng.randint(-nlev, nlev)
+                if profile.get("penny"):
+                    lev = max(0, lev)
                 price = lev * tick
-                if rng.random() < p_off:
+                if rng.random() < p_off or price <= 0:
                     price = (lev + rng.random()) * tick
                 ops.append(["L", is_buy, price, vol, ttl, ag])
             n_sub += 1
